@@ -77,6 +77,7 @@ type ConRun struct {
 	Stats map[string]int
 	Final [][]any
 	SetupErr string
+	TxnHist json.RawMessage
 }
 
 func (cr *ConRun) stat(k string, n int) {
@@ -504,9 +505,12 @@ func runConSim(run int, seed uint64) RunReport {
 		sb.WriteByte(',')
 	}
 	rep.Sig = shapeSig(cfg.Workload, sb.String())
-	rep.EventHash = shapeSig(sb.String(), fmt.Sprint(cr.Hist), fmt.Sprint(cr.Final), cr.Res.Outcome)
+	rep.EventHash = shapeSig(sb.String(), fmt.Sprint(cr.Hist), string(cr.TxnHist), fmt.Sprint(cr.Final), cr.Res.Outcome)
 	rep.Nontrivial = cr.Res.Preemptions > 0
 	hist, _ := json.Marshal(cr.Hist)
+	if cr.TxnHist != nil {
+		hist = cr.TxnHist
+	}
 	rep.Sample = map[string]any{"cfg": cr.Cfg, "history": json.RawMessage(hist), "schedule_decisions": cr.Res.Decisions}
 	seen := map[string]bool{}
 	other := map[string]int{}
@@ -593,6 +597,9 @@ func replayConSim(rf *ReplayFile) (bool, string) {
 	cr := newConRun(rf.Seed, cfg, "rp")
 	defer os.RemoveAll(cr.Dir)
 	cr.run()
+	if flVerbose {
+		fmt.Fprintf(os.Stderr, "outcome=%s steps=%d\nhistory=%s\nclient history=%v\nfinal=%v\n", cr.Res.Outcome, cr.Res.Steps, string(cr.TxnHist), cr.Hist, cr.Final)
+	}
 	if cr.Res.Outcome == "divergence" {
 		return false, "replay divergence: the recorded schedule is not runnable on this tree"
 	}
@@ -605,7 +612,151 @@ func replayConSim(rf *ReplayFile) (bool, string) {
 }
 
 func (cr *ConRun) runOther() {
-	cr.SetupErr = "workload " + cr.Cfg.Workload + " not implemented"
+	switch cr.Cfg.Workload {
+	case "txn":
+		cr.runTxn()
+	default:
+		cr.SetupErr = "workload " + cr.Cfg.Workload + " not implemented"
+	}
+}
+
+// runTxn: one task per multi-statement transaction program (explicit transaction handles), the
+// engine's background tasks alive; history checked by the C04 / C05 oracles.
+func (cr *ConRun) runTxn() {
+	cfg := &cr.Cfg
+	path := cr.Dir + "/db"
+	removeDBFiles(path)
+	if cfg.Background {
+		backgroundOn()
+	} else {
+		backgroundOff()
+	}
+	simrt.SeedRun(cr.Seed, cfg.MapPermute)
+	if cfg.Frames < 16+2*cfg.Clients {
+		cfg.Frames = 16 + 2*cfg.Clients
+	}
+	wr := newRng(simrt.Mix(cr.Seed, 43))
+	rows := cfg.Rows
+	if rows > 5 {
+		rows = 5
+	}
+	tok := int32(1000)
+	nk := int32(rows)
+	nTxn := cfg.Clients
+	progs := genProgs(wr, nTxn, rows, &tok, &nk, wr.Chance(0.3))
+	hist := make([]HTxn, nTxn)
+	var final [][]any
+	var s *SUT
+	cr.Res = simrt.Run(cr.simConfig(), func() {
+		var pi *PanicInfo
+		s, pi = OpenSUT(path, cfg.Frames)
+		if pi != nil {
+			cr.SetupErr = "open: " + pi.String()
+			return
+		}
+		if res := s.AutoSQL("CREATE TABLE t(k INT, v INT);"); !res.OK() {
+			cr.SetupErr = "create"
+			return
+		}
+		for k := 1; k <= rows; k++ {
+			if res := s.AutoSQL(fmt.Sprintf("INSERT INTO t(k, v) VALUES (%d, %d);", k, k)); !res.OK() {
+				cr.SetupErr = "insert"
+				return
+			}
+		}
+		if wr.Chance(0.5) {
+			s.RefreshStats()
+		}
+		var tasks []*simrt.Task
+		for i := 0; i < nTxn; i++ {
+			i := i
+			hist[i].ID = i
+			tasks = append(tasks, simrt.S.Spawn(fmt.Sprintf("txn-%d", i), func() {
+				h := &hist[i]
+				t, pi := s.Begin()
+				if pi != nil {
+					panic("begin: " + pi.Val)
+				}
+				for j, st := range progs[i].Stmts {
+					hs := HStmt{Idx: j, St: st, Call: simrt.S.Steps()}
+					r := t.Exec(st.SQL())
+					hs.Ret = simrt.S.Steps()
+					if r.Panic != nil {
+						panic(st.SQL() + ": " + r.Panic.String())
+					}
+					if r.Aborted || r.Err != nil {
+						hs.Status = "aborted"
+						h.Stmts = append(h.Stmts, hs)
+						h.EndCall = simrt.S.Steps()
+						if pi := t.Abort(); pi != nil {
+							panic("abort: " + pi.String())
+						}
+						h.EndRet = simrt.S.Steps()
+						h.Outcome = "conflict-aborted"
+						return
+					}
+					hs.Status = "ok"
+					hs.Rows = r.Rows
+					h.Stmts = append(h.Stmts, hs)
+				}
+				h.EndCall = simrt.S.Steps()
+				var pe *PanicInfo
+				if progs[i].Abort {
+					pe = t.Abort()
+					h.Outcome = "aborted"
+				} else {
+					pe = t.Commit()
+					h.Outcome = "committed"
+				}
+				h.EndRet = simrt.S.Steps()
+				if pe != nil {
+					panic("end: " + pe.String())
+				}
+			}))
+		}
+		for _, t := range tasks {
+			simrt.S.Join(t)
+		}
+		rowsF, _, r := s.ScanHeap("t")
+		if r.OK() {
+			final = rowsF
+		} else {
+			cr.SetupErr = fmt.Sprintf("final scan: %v %v", r.Err, r.Panic)
+		}
+		s.DB.Shutdown()
+		s.closed = true
+	})
+	cr.stat("steps", int(cr.Res.Steps))
+	cr.stat("decisions", int(cr.Res.Decisions))
+	cr.stat("preemptions", int(cr.Res.Preemptions))
+	cr.stat("outcome:"+cr.Res.Outcome, 1)
+	hj, _ := json.Marshal(hist)
+	cr.TxnHist = hj
+	switch cr.Res.Outcome {
+	case "deadlock":
+		cr.viol("C12", "no-progress:deadlock", strings.Join(firstN(cr.Res.Blocked, 12), "; "))
+		return
+	case "panic":
+		cr.Viol = append(cr.Viol, Violation{Property: "C04", Class: "panic-under-concurrency", Detail: fmt.Sprintf("task %s: %s [%s]", cr.Res.PanicTask, cr.Res.PanicVal, repoFrames(cr.Res.PanicStack, 6)), Site: panicSite(cr.Res.PanicStack)})
+		return
+	case "ok":
+	default:
+		cr.stat("inconclusive_"+cr.Res.Outcome, 1)
+		return
+	}
+	if cr.SetupErr != "" {
+		cr.viol("C04", "setup-or-final-statement-failed", cr.SetupErr)
+		return
+	}
+	for _, h := range hist {
+		cr.stat("txn:"+h.Outcome, 1)
+	}
+	o := newOracle(rows, hist, false)
+	cr.Viol = append(cr.Viol, o.c04()...)
+	cr.Viol = append(cr.Viol, o.c05()...)
+	if v := finalStateCheck(rows, hist, final); v != nil {
+		cr.Viol = append(cr.Viol, *v)
+	}
 }
 
 func firstN(xs []string, n int) []string {
